@@ -251,16 +251,18 @@ theorem go_ret (s : VmState) :
 
 /-! ## 2. relations that only look at the call stack -/
 
+/-- a preorder on states that relates any two states with the same call stack (everything except
+    `CallFunction`, `Return` and the callback of a host function respects such a relation) -/
+class SameFrames (R : VmState → VmState → Prop) : Prop extends StateOrder R where
+  of_frames : ∀ {s s' : VmState}, s'.frames = s.frames → R s s'
+
 /-- a preorder on states that relates `s` to every state whose call stack is a sub-multiset of
     that of `s` (in particular: the same call stack) -/
-class FrameRel (R : VmState → VmState → Prop) : Prop extends StateOrder R where
+class FrameRel (R : VmState → VmState → Prop) : Prop extends SameFrames R where
   of_sub : ∀ {s s' : VmState}, (∀ f ∈ s'.frames, f ∈ s.frames) → R s s'
 
-theorem FrameRel.of_frames {R : VmState → VmState → Prop} [FrameRel R] {s s' : VmState}
-    (h : s'.frames = s.frames) : R s s' := FrameRel.of_sub (fun f hf => h ▸ hf)
-
-macro_rules | `(tactic| pres_side) => `(tactic| with_reducible exact FrameRel.of_frames rfl)
-macro_rules | `(tactic| pres_side) => `(tactic| exact FrameRel.of_frames (gc_frames _))
+macro_rules | `(tactic| pres_side) => `(tactic| with_reducible exact SameFrames.of_frames rfl)
+macro_rules | `(tactic| pres_side) => `(tactic| exact SameFrames.of_frames (gc_frames _))
 theorem FrameRel.of_dropLast {R : VmState → VmState → Prop} [FrameRel R] {s s' : VmState}
     (h : s'.frames = s.frames.dropLast) : R s s' :=
   FrameRel.of_sub (fun f hf => List.dropLast_subset _ (h ▸ hf))
@@ -268,7 +270,7 @@ theorem FrameRel.of_dropLast {R : VmState → VmState → Prop} [FrameRel R] {s 
 macro_rules | `(tactic| pres_side) => `(tactic| exact FrameRel.of_dropLast rfl)
 
 section frameprims
-variable {R : VmState → VmState → Prop} [FrameRel R]
+variable {R : VmState → VmState → Prop} [SameFrames R]
 
 theorem fpres_push (v : Val) : Pres R (push v) := by unfold push; pres_auto
 theorem fpres_pop : Pres R pop := by unfold pop; pres_auto
@@ -312,7 +314,7 @@ macro_rules | `(tactic| pres_prim) => `(tactic| with_reducible first
   | exact fpres_guardVal _ | exact fpres_unguardVal _)
 
 section framerows
-variable {R : VmState → VmState → Prop} [FrameRel R]
+variable {R : VmState → VmState → Prop} [SameFrames R]
 theorem fpres_guardRows (es : List (Val × Val)) : Pres R (guardRows es) := by
   unfold guardRows; pres_auto
 theorem fpres_unguardRows (es : List (Val × Val)) : Pres R (unguardRows es) := by
@@ -322,7 +324,7 @@ macro_rules | `(tactic| pres_prim) => `(tactic| with_reducible first
   | exact fpres_guardRows _ | exact fpres_unguardRows _)
 
 section framecompound
-variable {R : VmState → VmState → Prop} [FrameRel R]
+variable {R : VmState → VmState → Prop} [SameFrames R]
 
 theorem fpres_allocBytes (c : Nat) : Pres R (allocBytes c) := by
   unfold allocBytes
@@ -363,8 +365,14 @@ theorem fpres_callNative (reenter : Reenter) (hre : ∀ f, Pres R (reenter f)) (
 macro_rules
   | `(tactic| pres_prim) => `(tactic| with_reducible exact fpres_callNative _ (by assumption) _)
 
+end framecompound
+
+section framestep
+variable {R : VmState → VmState → Prop} [FrameRel R]
+
 macro_rules | `(tactic| pres_prim) => `(tactic| with_reducible exact (‹∀ (h : UInt32) (ar : Nat) (c : Option Nat), Pres _ (step.callScript _ _ _ h ar c)›) _ _ _)
 
+set_option maxHeartbeats 400000 in
 /-- an instruction other than `CallFunction` only shrinks the call stack (`Return`) or leaves it
     to the re-entry callback -/
 theorem fpres_step_other (p : Prog) (reenter : Reenter) (hre : ∀ f, Pres R (reenter f)) (src : Nat)
@@ -383,7 +391,7 @@ theorem fpres_callFunction (p : Prog) (reenter : Reenter) (hre : ∀ f, Pres R (
   unfold Instr.callFunction
   pres_auto
 
-end framecompound
+end framestep
 
 /-! ## 3. the call-stack invariant with call sites -/
 
@@ -396,6 +404,7 @@ def FInvR (G P : Nat → Prop) (s s' : VmState) : Prop := FInv G P s.frames → 
 instance (G P : Nat → Prop) : FrameRel (FInvR G P) where
   refl _ h := h
   trans h1 h2 h := h2 (h1 h)
+  of_frames he h := he ▸ h
   of_sub hsub h := fun f hf => h f (hsub f hf)
 
 theorem FInv.good {G P : Nat → Prop} {fs : List Frame} (h : FInv G P fs) : Good G fs :=
@@ -488,26 +497,28 @@ def LoopLoc (G P : Nat → Prop) (p : Prog) (gas : Nat) : Prop :=
     ∀ e, (exec p gas (.loop ip) s).2 = .error e →
       G e.at_ ∧ e.frames = (exec p gas (.loop ip) s).1.frames ∧ ErrAt p e
 
-/-- the same for `run_function` -/
+/-- the same for `run_function` (which pops the call stack back to its entry depth before it
+    propagates an error: the error record keeps the call stack of the moment of failure, which is
+    no longer the call stack of the state; it satisfies the invariant too) -/
 def CallLoc (G P : Nat → Prop) (p : Prog) (gas : Nat) : Prop :=
   ∀ (f : Val) (s : VmState), FInv G P s.frames →
     FInv G P (exec p gas (.call f) s).1.frames ∧
-    ∀ e, (exec p gas (.call f) s).2 = .error e → G e.at_ ∧ e.frames = (exec p gas (.call f) s).1.frames
+    ∀ e, (exec p gas (.call f) s).2 = .error e → G e.at_ ∧ FInv G P e.frames
 
 theorem failAt_loc {s : VmState} {k : ErrKind} (h0 : G 0) (hs : FInv G P s.frames) :
     FInv G P (failAt s k).1.frames ∧
-    ∀ e, (failAt s k).2 = .error e → G e.at_ ∧ e.frames = (failAt s k).1.frames := by
+    ∀ e, (failAt s k).2 = .error e → G e.at_ ∧ FInv G P e.frames := by
   refine ⟨hs, fun e he => ?_⟩
   simp only [failAt, Except.error.injEq] at he
   subst he
-  exact ⟨h0, rfl⟩
+  exact ⟨h0, hs⟩
 
 include hc h0 hlab in
 theorem enterScript_loc (gas : Nat) (ih : LoopLoc G P p gas) (s : VmState) (l : UInt32) (ar : Nat)
     (c : Option Nat) (hs : FInv G P s.frames) :
     FInv G P (enterScript p gas s l ar c).1.frames ∧
     ∀ e, (enterScript p gas s l ar c).2 = .error e →
-      G e.at_ ∧ e.frames = (enterScript p gas s l ar c).1.frames := by
+      G e.at_ ∧ FInv G P e.frames := by
   unfold enterScript
   split
   · exact failAt_loc h0 hs
@@ -529,7 +540,10 @@ theorem enterScript_loc (gas : Nat) (ih : LoopLoc G P p gas) (s : VmState) (l : 
     rw [hdst, hsrc]
     exact ⟨hc.last, hPpos⟩
   split
-  · exact failAt_loc (s := { s with frames := s.frames ++ [fr] }) h0 (FInv.append hs hfrI)
+  · refine ⟨hs, fun e he => ?_⟩
+    simp only [Except.error.injEq] at he
+    subst he
+    exact ⟨h0, FInv.append hs hfrI⟩
   have hB : BaseExit p (s.frames ++ [fr]) := by
     intro c' hc'
     rw [List.getLast?_append, List.getLast?_singleton] at hc'
@@ -543,12 +557,12 @@ theorem enterScript_loc (gas : Nat) (ih : LoopLoc G P p gas) (s : VmState) (l : 
   rw [hex] at key
   cases r with
   | error e =>
-    refine ⟨key.1, fun e' he' => ?_⟩
+    refine ⟨fun f hf => key.1 f (List.mem_of_mem_take hf), fun e' he' => ?_⟩
     simp only [Except.error.injEq] at he'
     subst he'
-    exact ⟨(key.2 e rfl).1, (key.2 e rfl).2.1⟩
+    exact ⟨(key.2 e rfl).1, (key.2 e rfl).2.1 ▸ key.1⟩
   | ok v =>
-    refine ⟨key.1.dropLast, fun e' he' => ?_⟩
+    refine ⟨fun f hf => key.1 f (List.mem_of_mem_take hf), fun e' he' => ?_⟩
     cases he'
 
 include hc h0 hlab in
@@ -572,11 +586,11 @@ theorem exec_located (hPc : ∀ a, G a → p.bytecode.getD a 0 = Compiler.op.cal
       refine ⟨hs, fun e he => ?_⟩
       simp only [Except.error.injEq] at he
       subst he
-      exact ⟨h0, rfl⟩
+      exact ⟨h0, hs⟩
   | succ gas ih =>
     have hreB : ReBase (reenterOf p gas) G (fun _ => True) := fun f fs hg =>
       fr_liftRun (fun s hs => by
-        subst hs; exact (exec_cfi (E := fun _ => True) p hc gas).2 f s hg)
+        subst hs; exact (exec_cfi (E := fun _ => True) p hc gas).2.prefix f s hg)
     have hreI : ∀ f, Pres (FInvR G P) (reenterOf p gas f) := fun f =>
       pres_liftRun (fun s hs => (ih.2 f s hs).1)
     constructor
